@@ -17,7 +17,7 @@ import (
 func TestMain(m *testing.M) { vstat.Main(m) }
 
 const rule = "n in 2..10, 2<=t<=n, secret and polynomial from drawn bytes (ThresholdSplitInsecure) or the production CSPRNG split, message of 0..96 drawn bytes; every subset of size >= t for n <= 7 (64 drawn subsets for n >= 8): RecoverSecret = secret, RecoverPubkey(pubshares) = group key, ThresholdAggregate(partials) = Sign(secret,msg) byte for byte and verifies; " +
-	"negatives per subset: one partial from the same index of another split, one partial filed under an index outside the subset, one partial over another message -> the combination must not verify; non-trivial = t < n and subset != {1..t}; distinct by (n,t,subset,kind,secret)"
+	"negatives per subset: one partial from the same index of another split, one partial filed under an index outside the subset, one partial over another message, one slot carrying the partial of another share of the same combination -> the combination must not verify; non-trivial = t < n and subset != {1..t}; distinct by (n,t,subset,kind,secret)"
 
 type zeroReader struct{ b []byte }
 
@@ -151,12 +151,21 @@ func TestC08Threshold(t *testing.T) {
 			}
 			// negatives
 			victim := idxs[rapid.IntRange(0, len(idxs)-1).Draw(rt, "victim")]
-			for _, kind := range []string{"wrong_share", "wrong_index", "other_message"} {
+			for _, kind := range []string{"wrong_share", "wrong_index", "other_message", "sibling_share"} {
 				bad := map[int]tbls.Signature{}
 				for i, s := range subSig {
 					bad[i] = s
 				}
 				switch kind {
+				case "sibling_share": // the victim's slot carries the partial of another share that is in the combination too
+					if len(idxs) < 2 {
+						continue
+					}
+					sib := victim
+					for sib == victim {
+						sib = idxs[rapid.IntRange(0, len(idxs)-1).Draw(rt, "sibling")]
+					}
+					bad[victim] = subSig[sib]
 				case "wrong_share":
 					bad[victim], _ = tbls.Sign(otherShares[victim], msg)
 				case "wrong_index":
